@@ -133,6 +133,22 @@ def handle6 (op : String) (a obs : List String) : Option Verdict :=
              !(ignorable && abrupt) || calls.all (fun c => !(field obs c).startsWith "app:"))),
          ("peer_told", field obs "peer_close" != "alive")])
     pure (model, prop)
+  | "answer.late" => do
+    -- the connection ended (peer's CONNECTION_CLOSE, or the peer dropping it = implicit close
+    -- with code 0) before the application answers the session request: the answer names that
+    -- cause (`ConnectionError::with_driver_error` with quinn's close reason, `Result.direct`)
+    let how := get a 1
+    let code ← parseNat (get a 2)
+    let reason ← if get a 3 == "-" then some [] else unhex (get a 3)
+    let answer := get a 4
+    let cause : Result.Cause := if how == "quic_close" then .peerQuicClose code reason else .peerQuicClose 0 []
+    let refusal := answer == "forbidden" || answer == "not_found"
+    let model := [if refusal then "answer=sent" else s!"answer={connErr (Result.direct cause)}"]
+    let prop := check [("no_trap", !isTrap obs),
+      ("answer_completes", field obs "answer" != "timeout" && field obs "answer" != ""),
+      ("answer_after_the_end_never_succeeds", field obs "answer" != "ok"),
+      ("answer_names_the_actual_cause", refusal || field obs "answer" == connErr (Result.actual cause))]
+    pure (model, prop)
   | "drop.handles" =>
     let model := ["peer_close=app:0:-", "open_connections=0"]
     let prop := check [("no_trap", !isTrap obs),
